@@ -25,7 +25,29 @@ def family(sig):
     return sig.rsplit("|", 1)[0]
 
 
+def gen_cancel_during_poll(rng):
+    """Focus family: two to four futures in the polling stage together, a cancel function, and
+    cancel() calls on the later ones placed while a poll call is resolving the earlier ones
+    (the registry is being edited while the cancel looks its future up)."""
+    nsubs = rng.choice([2, 3, 4])
+    subs = {}
+    for s in range(nsubs):
+        subs[str(s)] = {"dur": 0, "out": "ok", "at": rng.choice([1, 1, 2]) if s < nsubs - 1 else rng.choice([2, 3]),
+                        "yield": "res", "submit_at": 0}
+    pf = {"raise_at": [], "ret": None, "dur": 0, "interval": rng.choice([0.5, 1.0]),
+          "cancel_fn": rng.choice(["true", "false", "false", "raise"])}
+    clients = []
+    for c in range(rng.choice([1, 2])):
+        clients.append([["await", rng.choice(["poll-yield", "poll-yield", "poll-enter"])], ["cancel", rng.randrange(1, nsubs)]])
+    spec = {"subs": subs, "pf": pf, "clients": clients, "settle": 30.0, "focus": "cancel-during-poll"}
+    spec["sim"] = runner.draw_sim_cfg(rng, est=500)
+    spec["sim"]["horizon_s"] = 20000
+    return spec
+
+
 def gen(rng, tier):
+    if rng.random() < 0.15:
+        return gen_cancel_during_poll(rng)
     nsubs = rng.choice([1, 2, 3, 4, 5])
     subs = {}
     for s in range(nsubs):
@@ -367,6 +389,16 @@ def check(spec, env):
         if n > len(cancels.get(s, [])):
             out.append({"oracle": "cancel-fn", "sig": "cancel-fn-too-often",
                         "msg": "cancel function called %d times for submission %r with %d cancel() calls" % (n, s, len(cancels.get(s, [])))})
+    # a cancel() that returned True on a future which was in the polling stage from before the call
+    # began (its delegate's successful completion, callbacks included, had returned) must have
+    # consulted the cancel function
+    if spec["pf"]["cancel_fn"]:
+        for s, cs in cancels.items():
+            trues = sorted(c for c in cs if c[2] is True)
+            if trues and d_ok.get(s) and d_fin.get(s, 1 << 60) < trues[0][0] and not per_sub.get(s):
+                out.append({"oracle": "cancel-fn", "sig": "cancel-fn-not-consulted|%s" % spec["pf"]["cancel_fn"],
+                            "msg": "cancel() on submission %r returned True (events %d..%d) while it was in the polling stage (delegate finished at event %d), "
+                                   "but the cancel function was never called for it" % (s, trues[0][0], trues[0][1], d_fin[s])})
     vetoed = spec["pf"]["cancel_fn"] in ("false", "raise")
     if vetoed:
         for s, st in finals.items():
